@@ -64,6 +64,25 @@ def run(tier, seed):
         forms += [[0x80], [0x88] + [0xff] * 8, [0x88, 0, 0, 0, 0, 0, 0, 0, n0 & 255], [0xff], [0x85, 1, 0, 0, 0, 0]]
         for j, lf in enumerate(forms):
             plans.append({"id": "berlen%d" % j, "stage": "cresp", "layer": "berlen", "faults": [{"op": "trunc", "at": 0}, {"op": "append", "bytes": lf}], "uid": 1004})
+        # every value of the first MCS byte (PDU type and, for the disconnect ultimatum, the top bits of the reason) with
+        # both values of the bit that continues the reason in the next byte, in place of every reply that is an MCS PDU
+        for r in regs:
+            if r["layer"] != "mcs":
+                continue
+            for b0 in range(256):
+                for b1 in (0x00, 0x80):
+                    plans.append({"id": "mcs0-%s-%d-%d" % (r["stage"], b0, b1), "stage": r["stage"], "layer": "mcs", "faults": [{"op": "set8", "off": 0, "v": b0}, {"op": "set8", "off": 1, "v": b1}], "uid": 1004})
+        # nesting as deep as a frame can hold: indefinite-length constructed elements (2 bytes a level) and definite ones
+        # (4 bytes a level) in place of the connect response - the reader's recursion has to be bounded by depth, not by input
+        def nest_def(levels):
+            inner = []
+            for _ in range(levels):
+                n = len(inner)
+                inner = [0x30, 0x82, n >> 8, n & 255] + inner if n < 65536 else inner
+            return inner
+        for j, body in enumerate([[0x30, 0x80] * n for n in (70, 600, 4000, 16000)] + [[0x7f, 0x66, 0x80] + [0x30, 0x80] * n for n in (4000, 16000)] + [nest_def(n) for n in (70, 700, 8000)] +
+                                 [[0x7f, 0x66, 0x82, (7990 * 4) >> 8, (7990 * 4) & 255] + nest_def(7990)]):
+            plans.append({"id": "nest%d" % j, "stage": "cresp", "layer": "ber", "faults": [{"op": "trunc", "at": 0}, {"op": "append", "bytes": body}], "uid": 1004})
         plans.append({"id": "selftest", "stage": "attach", "layer": "mcs", "faults": [{"op": "set8", "off": 1, "v": 1}], "uid": 1004})
         pp = os.path.join(wd, "plans.ndjson")
         with open(pp, "w") as f:
